@@ -245,7 +245,35 @@ func checkC07(c *Check) {
 	var failClosed func(g *RuleCtx, depth int) (hasReject, rejectWithoutTemp bool)
 	failClosed = func(g *RuleCtx, depth int) (bool, bool) {
 		ew := g.F.AvoidImplying(func(atom ast.Expr) (bool, bool) { w, ok := isErrTest(atom); return !w, ok })
-		rr := func(pt Pt) bool { _, ret := g.F.Exit(pt); return polOf(ret) == "PolicyReject" }
+		// a reject: `return …, PolicyReject`, or `policy = PolicyReject` on a local that a return hands back unchanged
+		rejAssign := map[Pt]bool{}
+		for _, pt := range g.F.Points() {
+			as, ok := pt.Node().(*ast.AssignStmt)
+			if !ok || len(as.Lhs) != len(as.Rhs) {
+				continue
+			}
+			for i, l := range as.Lhs {
+				sel, isSel := ast.Unparen(as.Rhs[i]).(*ast.SelectorExpr)
+				v, isVar := objOf(g.Info, l).(*types.Var)
+				if !isSel || sel.Sel.Name != "PolicyReject" || !isVar || v.IsField() {
+					continue
+				}
+				returnsV := func(q Pt) bool {
+					_, ret := g.F.Exit(q)
+					return ret != nil && len(ret.Results) == 2 && objOf(g.Info, ret.Results[1]) == v
+				}
+				if _, f := g.F.Reach(Query{From: []Pt{pt}, Target: returnsV, Avoid: func(q Pt) bool { return q != pt && q.Node() != nil && assignsObj(g.Info, q.Node(), v) }}); f {
+					rejAssign[pt] = true
+				}
+			}
+		}
+		rr := func(pt Pt) bool {
+			if rejAssign[pt] {
+				return true
+			}
+			_, ret := g.F.Exit(pt)
+			return polOf(ret) == "PolicyReject"
+		}
 		_, hasReject := g.F.Reach(Query{From: g.Entry(), Inclusive: true, Target: rr, AvoidEdge: ew})
 		noTemp := func(b *cfgBlock, i int) bool {
 			if ew(b, i) {
